@@ -145,6 +145,13 @@ func SideConditions(as []*smt.Term) []*smt.Term {
 			// pattern (AllowNoAttrs().OnElementsMatching registers both)
 			add(smt.Implies(x, smt.UF(strings.Replace(x.Name, "barere", "elre", 1), smt.Bool, x.Args[0])))
 		}
+		if strings.HasPrefix(x.Name, "rmall.") {
+			v := x.Args[0]
+			add(smt.Le(smt.StrLen(x), smt.StrLen(v)))
+			for _, f := range HostileFragments {
+				add(smt.Implies(smt.Contains(v, smt.StrC(f)), smt.Contains(x, smt.StrC(f))))
+			}
+		}
 		switch x.Name {
 		case "lower":
 			y := x.Args[0]
@@ -179,6 +186,9 @@ func SideConditions(as []*smt.Term) []*smt.Term {
 	}
 	return out
 }
+
+// HostileFragments are the substrings C18 forbids in accepted CSS values.
+var HostileFragments = []string{"<", ">", "\\", "@", "expression(", "javascript:", "data:", "url("}
 
 var (
 	// printable ASCII without " and \  (strconv.QuoteToASCII leaves these as is)
@@ -558,6 +568,22 @@ func registerModels(in *Interp) {
 				return res
 			})
 		})}
+	}
+	M["(*regexp.Regexp).ReplaceAll"] = func(in *Interp, st *State, cc *ssa.CallCommon, args []Value) []Alt {
+		r := regexOf(st, args[0])
+		src := args[1].(BytesV).S
+		repl := args[2].(BytesV).S
+		if r.Known == nil || r.Known.Re == nil || !repl.IsConst() {
+			panic("ReplaceAll on opaque regexp or with symbolic replacement")
+		}
+		if src.IsConst() {
+			return one(BytesV{S: smt.StrC(string(r.Known.Re.ReplaceAll([]byte(src.S), []byte(repl.S))))})
+		}
+		if repl.S != "" {
+			panic("ReplaceAll with non-empty replacement")
+		}
+		st.Assumed = append(st.Assumed, "regexp.ReplaceAll(v, \"\") is an uninterpreted function that neither deletes nor creates a hostile fragment")
+		return one(BytesV{S: smt.UF("rmall."+fmt.Sprint(r.ID), smt.String, src)})
 	}
 	// net/url
 	M["net/url.Parse"] = func(in *Interp, st *State, cc *ssa.CallCommon, args []Value) []Alt {
